@@ -692,7 +692,7 @@ def run(rep: C.Report, tier: str) -> int:
             "axioms: Coq Reals (ClassicalDedekindReals.sig_forall_dec, sig_not_dec, functional_extensionality_dep), "
             "Classical_Prop.classic (Coquelicot); the discrete-structure theorems are closed under the global context"],
         rule="samples: ints with ties / dyadic / two clusters / outlier / heavy-tailed (N 3..60), bandwidth dyadic, "
-             "log-uniform in [range/1000, 100 range]; 16 evaluation points per case: inside, exactly on region edges, "
+             "log-uniform in [range/3500, 100 range] (up to 12 layers / 4096 regions); 16 evaluation points per case: inside, exactly on region edges, "
              "on samples, just outside, far outside; a case counts as distinct by (sample, bandwidth); bandwidth-mode "
              "and cdf runs use seeded float samples (normal / bimodal / skewed / heavy / ties)")
 
